@@ -49,8 +49,13 @@ Definition wait_until (p : params) (now : time) : option time :=
   | None => compute_next p now
   end.
 
-(* Redis: int(wait_until.timestamp()) — whole seconds, floor (instants are after the epoch) *)
+(* Redis: math.ceil(wait_until.timestamp()) — whole seconds, rounded UP (since the fix recorded for C05), so that the
+   server's comparison with the whole second of "now" never finds a message before its time *)
+Definition ceil_s (t : time) : Z := - ((- t) / usec_per_sec).
 Definition wait_ts_s (p : params) (now : time) : option Z :=
+  match wait_until p now with Some t => Some (ceil_s t) | None => None end.
+(* before the fix: int(...), i.e. floor *)
+Definition wait_ts_s_old (p : params) (now : time) : option Z :=
   match wait_until p now with Some t => Some (t / usec_per_sec) | None => None end.
 
 Definition set_tried (r : retries) (t : Z) : retries := mkRetries (r_max r) t.
